@@ -3,6 +3,7 @@ package main
 import (
 	"fmt"
 	"go/token"
+	"os"
 	"strings"
 
 	"golang.org/x/tools/go/ssa"
@@ -413,6 +414,9 @@ func runValidatorTable(c *Ctx) {
 					continue
 				}
 				cond, neg := stripNot(ifi.Cond)
+				if os.Getenv("LINT_DEBUG") != "" && t.Name == "dotdot" {
+					fmt.Fprintf(os.Stderr, "DEBUG %s b%d cond=%v (%T) match=%v\n", fnName, b.Index, cond, cond, t.Match(p, cond, subject))
+				}
 				if !t.Match(p, cond, subject) {
 					continue
 				}
@@ -422,6 +426,8 @@ func runValidatorTable(c *Ctx) {
 				}
 				if rejectEdgeFrom(p, b, rej, errStyle) {
 					found = true
+				} else if os.Getenv("LINT_DEBUG") != "" {
+					fmt.Fprintf(os.Stderr, "DEBUG validator %s %s: match in b%d rej=b%d not rejecting\n", fnName, t.Name, b.Index, rej.Index)
 				}
 			}
 			c.verdictIf(found, P, "validator", "fn="+fnName+" rejects="+t.Name, p.pos(fn.Pos()), "rejected", fnName+" has no test of its name argument for '"+t.Name+"' whose true edge returns a rejection")
@@ -508,6 +514,19 @@ func dotDotRejected(p *Prog, fn *ssa.Function, raw ssa.Value, at *ssa.BasicBlock
 		if stringsCallWith(cond, raw, []string{"strings.Contains"}, func(n string) bool { return n == ".." }) {
 			if rejectEdgeFrom(p, b, rej, errStyle) && (b == at || b.Dominates(at)) {
 				return true
+			}
+		}
+		// slices.Contains(strings.Split(raw, "/"), "..")
+		if call, ok := cond.(*ssa.Call); ok && strings.HasPrefix(shortCallee(call), "slices.Contains") && len(call.Call.Args) == 2 {
+			if s, isS := constStr(call.Call.Args[1]); isS && s == ".." {
+				if sc, ok := unwrap(call.Call.Args[0]).(*ssa.Call); ok && isCallTo(sc, "strings.Split") {
+					sep, _ := constStr(sc.Call.Args[1])
+					if sameValue(sc.Call.Args[0], raw) && sep == "/" && rejectEdgeFrom(p, b, rej, errStyle) {
+						if sb := sc.Block(); sb == at || sb.Dominates(at) {
+							return true
+						}
+					}
+				}
 			}
 		}
 		bo, ok := cond.(*ssa.BinOp)
